@@ -15,7 +15,7 @@ RULE = ("hist cases: histories of add-plugin / remove-rule / has_rule / Debug / 
 ADD = list("nebmliatcfqhurHLpsxXS") + list("12345678") 
 REM = list("nebmMsliEatxcfqhurHLpXSJ") + list("12345")
 DOCS = ["xx a xx %% b", "*a* _b_ ~~c~~ `d`", "- a\n@@@\nb", "> q\n@@@", "# h\n\n    code\n\n```\nf\n```", "[a](u) ![b](v) <http://x.y> &amp; \\*", "a\nb  \nc", "<b>x</b>\n\n<div>\ny\n</div>",
-        "1. x\n2. y\n\n---\n\nt\n===", "[r]: /u\n\n[r] xx"]
+        "1. x\n2. y\n\n---\n\nt\n===", "[r]: /u\n\n[r] xx", "t <b>x</b> u <http://a.b> v &amp; w", "p *q <i>r</i>* s ![t](u) <x@y.z> end"]
 
 
 def gen_history(rng):
@@ -66,6 +66,22 @@ def cases(rng, tier, Case):
                 g = script(ops)
                 res.append(Case("hist 100 R %s" % g, "full", {"g": g, "role": "full"}))
                 res.append(Case("hist 100 R %s" % script(erased), "erased", {"g": g, "role": "erased"}))
+    # removal of a rule that is not (or no longer) registered while another rule shares its marker character
+    probe2 = "t <b>x</b> u <http://a.b> v *w* _x_ [y](z) ![i](j) %% xx % k % end"
+    for r1 in "axmMliE348sb":
+        for pat in ("+CWs348;P;-%s;-%s;P", "+CWs348;-%s;P;-%s;P", "+CW;P;-%s;P;+%s;P", "+nebp;P;-%s;-%s;+CW;P", "+CWs348;-%s;-%s;P"):
+            ops = []
+            k_ = 0
+            for part in pat.split(";"):
+                if part == "P":
+                    ops.append(("P", probe2))
+                else:
+                    ops.append((part[0], part[1:].replace("%s", r1 if part[0] == "-" else {"M": "m", "E": "l"}.get(r1, r1))))
+            ops += [("?", "axml"), ("D", ""), ("P", probe2)]
+            erased = [x for i, x in enumerate(ops) if x[0] != "P" or i == len(ops) - 1]
+            g = script(ops)
+            res.append(Case("hist 100 R %s" % g, "full", {"g": g, "role": "full"}))
+            res.append(Case("hist 100 R %s" % script(erased), "erased", {"g": g, "role": "erased"}))
     # Ruler-level histories
     for _ in range(n):
         items = []
@@ -81,7 +97,14 @@ def cases(rng, tier, Case):
         mid = []
         for _ in range(rng.choice([1, 2, 3])):
             mid.append(rng.choice(["i", "d", "i"]))
-            mid.append(rng.choice(["r%d" % rng.choice([1, 2, 3, 4, 9]), "a%d,%d" % (rng.choice([1, 2, 5]), 20 + len(mid)), "c%d" % rng.choice([1, 2, 3, 9])]))
+            def mods_():
+                m_ = ""
+                for _ in range(rng.choice([0, 1, 1, 2])):
+                    m_ += ":" + rng.choice(["l", "l", "f", "b", "b"]) + str(rng.choice([1, 2, 3, 4, 7, 9]))
+                return m_
+            mid.append(rng.choice(["r%d" % rng.choice([1, 2, 3, 4, 7, 9]), "a%d,%d" % (rng.choice([1, 2, 5]), 20 + len(mid)),
+                                   "a%d,%d%s" % (rng.choice([5, 6, 8]), 30 + len(mid), mods_()), "a%d,%d%s" % (rng.choice([5, 6, 8]), 40 + len(mid), mods_()),
+                                   "c%d" % rng.choice([1, 2, 3, 7, 9])]))
         full = ops + mid + ["c1", "c2", "c3", "c9", "i", "d"]
         erased = ops + [x for x in mid if x[0] not in "id"] + ["c1", "c2", "c3", "c9", "i", "d"]
         g = ";".join(full)
